@@ -3,6 +3,15 @@ import json, os, sys
 HERE = os.path.dirname(os.path.dirname(os.path.abspath(__file__)))
 
 CHECKS = {
+ "C02": dict(cat="exploration", ref="DESIGN.md 5.C02",
+   text="Seeded signal sets (explicit hierarchical back-traces, related chains, overrides colliding with generated and with "
+        "suffixed names, reserved words) named by the real build_signal_namespace/SignalNamespace under seeded request orders "
+        "with repeats: after every request the signal->name map must be injective and stable, names legal and not reserved "
+        "(harness's own keyword list); batches of small designs converted by the real convert() in three fresh interpreters "
+        "with different PYTHONHASHSEED: declarations unique/legal/not reserved, texts identical apart from the date line.",
+   note="Caveat (DESIGN.md 5.C02): the schedule is the request order and the interpreter hash order; there is no clock and no "
+        "fault dimension.",
+   tech="seeded search over name-request orders and interpreter hash seeds against the real namer (deterministic, no faults)"),
  "C03": dict(cat="exploration", ref="DESIGN.md 5.C03",
    text="Seeded search over valid/ready schedules, token sequences and parameters of every stream element and of 2-3 element "
         "compositions, run on the real LiteX simulator; recorded source handshakes are compared with a reference function "
